@@ -2,6 +2,7 @@
 import ast
 
 from sa.cfg import CFG
+from sa.calls import bind
 from sa.common import chain_root, expand_name, resolved_calls, returns_of
 from sa.defuse import DefUse, loc_name
 from sa.model import AnalysisError, AnchorMissing, const_value, src, walk_function
@@ -476,13 +477,42 @@ def d6_one_indexing_surface(ctx):
     from sa.algebra import Evaluator, Poly, SymExec, Undecided
     repo = ctx.repo
     n = 0
+    work = []
     for q in ("spikeglx.Reader.read", "spikeglx.Reader.read_sync_digital"):
         fi = repo.fn(q)
         params = [p_ for p_ in fi.params if p_ != "self"]
-        if not params:
+        if params:
+            work.append((q, params[0]))
+    done = set()
+    while work:
+        q, sel = work.pop(0)
+        if (q, sel) in done:
             continue
-        sel = params[0]
+        done.add((q, sel))
+        fi = repo.fn(q)
+        # helper methods of the reader that receive the caller's sample selector are part of the same surface
+        for c_ in find(fi.node, ast.Call):
+            if isinstance(c_.func, ast.Attribute) and loc_name(c_.func.value) == "self" and any(loc_name(a_) == sel for a_ in c_.args):
+                hq = repo.resolve_expr(fi, c_.func)
+                if hq in repo.functions and hq != q:
+                    hb = bind(c_, repo.functions[hq])
+                    for prm, arg in hb.bound.items():
+                        if loc_name(arg) == sel:
+                            work.append((hq, prm))
         subs = [x for x in walk_function(fi.node) if isinstance(x, ast.Subscript) and isinstance(x.ctx, ast.Load) and loc_name(x.value) == "self._raw"]
+        # a decompressed chunk held in a local: <local> = self._raw.read_chunk(i, ...) holds rows chunk_bounds[i] : chunk_bounds[i + 1] (mtscomp API, model table)
+        origin = {}
+        for st in walk_function(fi.node):
+            if isinstance(st, ast.Assign) and len(st.targets) == 1 and isinstance(st.targets[0], ast.Name) and isinstance(st.value, ast.Call) and call_name(st.value) == "read_chunk" \
+                    and isinstance(st.value.func, ast.Attribute) and loc_name(st.value.func.value) == "self._raw" and st.value.args:
+                origin[st.targets[0].id] = st.value.args[0]
+        subs += [x for x in walk_function(fi.node) if isinstance(x, ast.Subscript) and isinstance(x.ctx, ast.Load) and isinstance(x.value, ast.Name) and x.value.id in origin]
+        direct = {}
+        for x in walk_function(fi.node):
+            if isinstance(x, ast.Subscript) and isinstance(x.ctx, ast.Load) and isinstance(x.value, ast.Call) and call_name(x.value) == "read_chunk" \
+                    and isinstance(x.value.func, ast.Attribute) and loc_name(x.value.func.value) == "self._raw" and x.value.args:
+                direct[id(x)] = x.value.args[0]
+                subs.append(x)
         parents = {}
         for p_ in ast.walk(fi.node):
             for c_ in ast.iter_child_nodes(p_):
@@ -536,6 +566,12 @@ def d6_one_indexing_surface(ctx):
             try:
                 lo = ev.ev(row.lower) if row.lower is not None else Poly.const(0)
                 sp = ev.ev(row.step) if row.step is not None else Poly.const(1)
+                if (isinstance(sub.value, ast.Name) and sub.value.id in origin) or id(sub) in direct:
+                    # rows of a decompressed chunk are counted from the chunk's first sample: chunk_bounds[i]
+                    bnd = [st_.targets[0].id for st_ in walk_function(fi.node) if isinstance(st_, ast.Assign) and len(st_.targets) == 1 and isinstance(st_.targets[0], ast.Name)
+                           and loc_name(st_.value) == "self._raw.chunk_bounds"]
+                    org = ast.Subscript(value=(ast.Name(id=bnd[0], ctx=ast.Load()) if bnd else ast.parse("self._raw.chunk_bounds", mode="eval").body), slice=(direct[id(sub)] if id(sub) in direct else origin[sub.value.id]), ctx=ast.Load())
+                    lo = lo + ev.ev(org)
             except Undecided as ex:
                 raise AnalysisError(f"{q}: bounds of `{src(sub)[:60]}` not evaluable: {ex}")
             S, ST = Poly.sym(start), Poly.sym(step)
